@@ -37,7 +37,8 @@
 //!   the real `Pipeline` with its own thread; the submitters (all the same operation) are
 //!   polled by hand and the harness sleeps `pause ms` at every schedule point a submitter
 //!   stops at, which gives the pipeline thread time to finish the operation in every window
-//!   between two steps of `process`. Result: `PAUSED returned=<k> own=<k>`.
+//!   between two steps of `process`; the run gives up after 20 s without a submitter moving.
+//!   Result: `PAUSED returned=<k> own=<k>`.
 //!
 //! `mt <mode> <clone ms> <writer delay ms> | <start offset ms of waiter 0> <of waiter 1> ...`
 //!   contention on the result mutex of ONE task: k waiters call `Task::ready()` on k OS threads
@@ -395,7 +396,7 @@ fn paused(payload: &str) -> String {
         let (mut returned, mut own) = (0u64, 0u64);
         let mut last_progress = Instant::now();
         let mut cx = Context::from_waker(Waker::noop());
-        while returned < subs as u64 && last_progress.elapsed() < Duration::from_secs(5) {
+        while returned < subs as u64 && last_progress.elapsed() < Duration::from_secs(20) {
             for slot in futs.iter_mut() {
                 let Some(fut) = slot.as_mut() else { continue };
                 let _ = hook::take_last_point();
